@@ -11,6 +11,8 @@ out, n, prop, slug = sys.argv[1], sys.argv[2], sys.argv[3], sys.argv[4]
 props = [prop] + sys.argv[5:]
 patch = os.path.join(out, "change%s.diff" % n)
 demo = os.path.join(out, "demo%s.c" % n)
+if not os.path.exists(demo) and os.path.exists(os.path.join(out, "demo%s.sh" % n)):
+    demo = os.path.join(out, "demo%s.sh" % n)
 notes = os.path.join(out, "NOTES.md")
 
 def sh(cmd, **kw):
@@ -27,6 +29,10 @@ meta = {"properties": props, "patch_from": patch, "ran": []}
 assert sh(["git", "-C", "/repo", "worktree", "add", "-q", "--detach", wt, "HEAD"]).returncode == 0
 try:
     def demo_run(tag):
+        if demo.endswith(".sh"):
+            r = sh(["sh", demo, wt], cwd=wt, timeout=900)
+            meta.setdefault("demo_build", "sh demo.sh $WT")
+            return r.returncode, r.stdout[-300:]
         exe = os.path.join(wt, "demo_" + tag)
         core = " ".join(os.path.join(wt, "lltdResponder", f) for f in ("lltdBlock.c", "lltdTlvOps.c", "lltdWire.c", "lltdAutomata.c"))
         inc = "-I%s/lltdResponder -I%s/tests -I%s/os/esp32/daemon" % (wt, wt, wt)
@@ -96,7 +102,7 @@ if meta.get("confirmed"):
     d = os.path.join(V, "seeded", "%s-%s" % (prop, slug))
     os.makedirs(d, exist_ok=True)
     shutil.copy(patch, os.path.join(d, "patch.diff"))
-    shutil.copy(demo, os.path.join(d, "demo.c"))
+    shutil.copy(demo, os.path.join(d, "demo.sh" if demo.endswith(".sh") else "demo.c"))
     if os.path.exists(notes):
         txt = open(notes).read()
         meta["agent_notes_excerpt"] = txt[:6000]
